@@ -324,7 +324,7 @@ func c12DrawScenario(t *rapid.T, run *c12Run) {
 	}
 	perm := rapid.Permutation(corrupt).Draw(t, "scenarioRoles")
 	a, b := perm[0], perm[1]
-	switch rapid.IntRange(0, 4).Draw(t, "scenarioKind") {
+	switch rapid.IntRange(0, 8).Draw(t, "scenarioKind") {
 	case 0:
 		// a sends b a bad share, b keeps quiet about it, a then fails in
 		// phase 7 so its key must be reconstructed; b reveals (or not)
@@ -378,6 +378,50 @@ func c12DrawScenario(t *rapid.T, run *c12Run) {
 		b.scriptPeer = a.idx
 		run.note("scenario justified-plus-false-accusation m%d about m%d", b.idx, a.idx)
 		run.fired["scenario:justified-plus-false-accusation"] = true
+	case 5:
+		// a omits the share for b, b omits the share for an honest member:
+		// whether a's message is complete depends on b's standing at the
+		// moment a's message is looked at (regression scenario for D11)
+		a.script = map[string]string{"p3": "shares-missing-peer"}
+		a.scriptPeer = b.idx
+		b.script = map[string]string{"p3": "shares-missing-honest"}
+		b.scriptPeer = a.idx
+		run.note("scenario omitted-shares m%d m%d", a.idx, b.idx)
+		run.fired["scenario:omitted-shares"] = true
+	case 6:
+		// a sends an honest member a bad share AND is itself the victim of b's
+		// bad share, so a (accused by the honest member) justly accuses b
+		// (regression scenario for D12); the same with points in phase 7/8
+		if rapid.Bool().Draw(t, "scnPoints") {
+			a.script = map[string]string{"p7": "points-random"}
+			b.script = map[string]string{"p7": "points-invalid-for-peer"}
+		} else {
+			a.script = map[string]string{"p3": "wrong-shares-for-honest"}
+			b.script = map[string]string{"p3": "wrong-shares-for-peer"}
+		}
+		a.scriptPeer = b.idx
+		b.scriptPeer = a.idx
+		run.note("scenario accused-accuses m%d m%d", a.idx, b.idx)
+		run.fired["scenario:accused-accuses"] = true
+	case 7:
+		// a's phase 10 message is invalid (reveals the key of an operating
+		// honest member), b reveals its key for a (regression scenario for D14)
+		a.script = map[string]string{"p10": "reveal-add-honest"}
+		b.script = map[string]string{"p10": "reveal-add-peer"}
+		a.scriptPeer = b.idx
+		b.scriptPeer = a.idx
+		run.note("scenario reveal-about-just-disqualified m%d m%d", a.idx, b.idx)
+		run.fired["scenario:reveal-about-just-disqualified"] = true
+	case 8:
+		// b sends its honest phase 10 message followed by a conflicting one
+		// that reveals the key of an operating honest member (regression
+		// scenario for D13); a forces a reconstruction so the phase matters
+		a.script = map[string]string{"p7": "silent", "p8": "silent", "p10": "silent"}
+		b.script = map[string]string{"p10": "honest-then-reveal-add-honest"}
+		a.scriptPeer = b.idx
+		b.scriptPeer = a.idx
+		run.note("scenario conflicting-second-reveal m%d", b.idx)
+		run.fired["scenario:conflicting-second-reveal"] = true
 	}
 }
 
@@ -411,6 +455,77 @@ func (r *c12Run) scripted(t *rapid.T, m *c12Member, out []net.TaggedMarshaler, b
 			res = append(res, alt)
 		}
 		return res
+	case "shares-missing-peer", "shares-missing-honest", "wrong-shares-for-honest":
+		st := m.st.(*commitmentState)
+		victim := m.scriptPeer
+		if behaviour != "shares-missing-peer" {
+			victim = r.honestSeat(t, "scnHonestVictim")
+		}
+		var res []net.TaggedMarshaler
+		for _, o := range out {
+			shares, ok := o.(*PeerSharesMessage)
+			if !ok {
+				res = append(res, o)
+				continue
+			}
+			alt := newPeerSharesMessage(shares.senderID, shares.sessionID)
+			for k, v := range shares.shares {
+				alt.shares[k] = &peerShares{append([]byte{}, v.encryptedShareS...), append([]byte{}, v.encryptedShareT...)}
+			}
+			if behaviour == "wrong-shares-for-honest" {
+				if key, ok := st.member.symmetricKeys[victim]; ok {
+					sh := st.member.evaluateMemberShare(victim, st.member.secretCoefficients)
+					sh = new(big.Int).Mod(new(big.Int).Add(sh, big.NewInt(1)), c12Order)
+					if err := alt.addShares(victim, sh, c12RandScalar(), key); err != nil {
+						t.Fatalf("harness: addShares: %v", err)
+					}
+				}
+			} else {
+				delete(alt.shares, victim)
+			}
+			res = append(res, alt)
+		}
+		r.note("m%d victim %d", m.idx, victim)
+		return res
+	case "points-invalid-for-peer":
+		// points of f + c*(product over everybody except the peer): valid for
+		// every member but the peer
+		st := m.st.(*pointsShareState)
+		msg := out[0].(*MemberPublicKeySharePointsMessage)
+		alt := &MemberPublicKeySharePointsMessage{senderID: msg.senderID, sessionID: msg.sessionID}
+		poly := []*big.Int{c12RandScalar()}
+		deg := 0
+		for _, o := range r.members {
+			if o.idx != m.idx && o.idx != m.scriptPeer && deg < len(st.member.secretCoefficients)-1 {
+				poly = c12PolyMulLinear(poly, int64(o.idx))
+				deg++
+			}
+		}
+		for i, a := range st.member.secretCoefficients {
+			c := new(big.Int).Set(a)
+			if i < len(poly) {
+				c.Add(c, poly[i])
+				c.Mod(c, c12Order)
+			}
+			alt.publicKeySharePoints = append(alt.publicKeySharePoints, new(bn256.G2).ScalarBaseMult(c))
+		}
+		return []net.TaggedMarshaler{alt}
+	case "reveal-add-honest", "honest-then-reveal-add-honest":
+		msg := out[0].(*MisbehavedEphemeralKeysMessage)
+		st := m.st.(*keyRevealState)
+		alt := &MisbehavedEphemeralKeysMessage{senderID: msg.senderID, sessionID: msg.sessionID, privateKeys: map[group.MemberIndex]*ephemeral.PrivateKey{}}
+		for k, v := range msg.privateKeys {
+			alt.privateKeys[k] = v
+		}
+		h := r.honestSeat(t, "scnRevealHonest")
+		if kp, ok := st.member.ephemeralKeyPairs[h]; ok {
+			alt.privateKeys[h] = kp.PrivateKey
+		}
+		r.note("m%d reveals key for honest %d", m.idx, h)
+		if behaviour == "honest-then-reveal-add-honest" {
+			return []net.TaggedMarshaler{msg, alt}
+		}
+		return []net.TaggedMarshaler{alt}
 	case "withhold-against-peer":
 		switch msg := out[0].(type) {
 		case *SecretSharesAccusationsMessage:
